@@ -18,7 +18,8 @@ META = {
     "note": "Numeric/codec limit: the spec decides the case analysis (which strings of a small universe an expression matches); "
             "strings longer than 3 characters, other runes, invalid UTF-8, counted repetitions, and expressions outside the listed "
             "families are not explored. The language comes from the TLA+ semantics, package regexp is only a cross-check of that "
-            "semantics. Known finding KF-C17-1 (NFKD normalisation in the case-insensitive map matcher) is reported, not failed.",
+            "semantics. The two defects this check found (KF-C17-1, KF-C17-2) are repaired in the repository; their inputs stay in "
+            "the enumerated families and are compared strictly.",
     "technique": "TLA+ denotational semantics (Regex.tla) evaluated by TLC over a finite universe; languages compared with "
                  "labels.FastRegexMatcher / labels.Matcher",
     "design_ref": "DESIGN.md §5 C17",
